@@ -830,7 +830,7 @@ clock read before the lock, one lock, sweep → test → evict-oldest loop → i
 sweep from the front, expiry = reading + ttl -/
 theorem C23_shape :
     clockReadBeforeLock = true ∧ singleLock = true ∧ criticalSectionOrder = true ∧ evictsOldest = true ∧
-      sweepFromFront = true ∧ expiryIsNowPlusTtl = true := by decide
+      sweepFromFront = true ∧ expiryIsNowPlusTtl = true ∧ capDefaultIsConst = true := by decide
 
 /-- `__init__` accepts exactly positive ttl and capacity -/
 theorem nc_validate (ttl cap : Int) : validate ttl cap = true ↔ 0 < ttl ∧ 0 < cap := validate_iff ttl cap
